@@ -904,6 +904,143 @@ pub fn progress(trace: &[Value]) -> Vec<Value> {
     out
 }
 
+/// C03 / C06: one summary record per run: what was injected (descriptor from the script tag),
+/// whether it reached the victim, and what the victim and the bystanders did
+pub fn hostile(trace: &[Value]) -> Vec<Value> {
+    let tag = &trace[0]["tag"];
+    let victim_n: i64 = if tag["victim"] == "c" { 1 } else { 0 };
+    let mut tp_s = json!({"set":false});
+    let mut tp_c = json!({"set":false});
+    let mut applied = false;
+    let mut lostv = json!({"k":"none","code":-1});
+    let mut losta = json!({"k":"none","code":-1});
+    let mut panic = false;
+    let mut stepbound = false;
+    let mut closev: i64 = -1;
+    let mut maxq = [0i64; 6];
+    let mut by_done = true;
+    let mut accept_err = json!("none");
+    let mut read_after = 0i64;
+    for e in trace {
+        let ev = e["ev"].as_str().unwrap_or("");
+        let n = e["n"].as_i64().unwrap_or(-1);
+        match ev {
+            "TP" if n == 0 => { tp_s = e.clone(); tp_s["set"] = json!(true); }
+            "TP" if n == 1 => { tp_c = e.clone(); tp_c["set"] = json!(true); }
+            "Rx" if e["cls"] == "inject" && n == victim_n && e["kind"] == "conn" => applied = true,
+            "AppEvent" if e["e"]["k"] == "ConnectionLost" && n <= 1 => {
+                let r = json!({"k":e["e"]["reason"]["k"],"code":e["e"]["reason"]["code"]});
+                if n == victim_n { if lostv["k"] == "none" { lostv = r; } } else if losta["k"] == "none" { losta = r; }
+            }
+            "Accept" if e["ok"] == false => accept_err = json!(e["err"].as_str().unwrap_or("?").chars().take(60).collect::<String>()),
+            "Panic" => panic = true,
+            "StepBound" => stepbound = true,
+            "Tx" if n == victim_n => {
+                for p in pkts_of(e) {
+                    for f in frames_of(p) {
+                        if f["f"] == "CONNECTION_CLOSE" && closev < 0 {
+                            closev = f["code"].as_i64().unwrap_or(-1);
+                        }
+                    }
+                }
+            }
+            "Call" if n == victim_n && e["op"] == "read" && applied => {
+                // bytes handed to the victim application after the hostile frame arrived
+                read_after += e["res"]["total"].as_i64().unwrap_or(0);
+            }
+            "End" => {
+                // bystanders: the applications of client 2 (and the server side serving it)
+                by_done = e["apps"].as_array().is_none_or(|a| {
+                    a.iter().filter(|x| x["n"] == 2).all(|x| {
+                        x["lost"] == false
+                            && x["out"].as_array().is_none_or(|o| o.iter().all(|s| s["fin_ev"] == true))
+                    })
+                });
+            }
+            _ => {}
+        }
+        if n == victim_n {
+            if let Some(p) = e.get("post") {
+                if p.get("sp").is_some() {
+                    let sp2 = &p["sp"][2];
+                    let vals = [sp2["pretire"].as_i64().unwrap_or(0), sp2["pack"].as_i64().unwrap_or(0),
+                        p["streams"]["nrecv"].as_i64().unwrap_or(0), p["streams"]["nsend"].as_i64().unwrap_or(0),
+                        p["dgi"].as_i64().unwrap_or(0), sp2["nlost"].as_i64().unwrap_or(0)];
+                    for i in 0..6 { maxq[i] = maxq[i].max(vals[i]); }
+                }
+            }
+        }
+    }
+    let tpv = if victim_n == 0 { &tp_s } else { &tp_c };
+    let g = |v: &Value, k: &str| cap(&v[k]);
+    vec![
+        json!({"ev":"Reset","run":trace[0]["run"]}),
+        json!({"ev":"Case","victim":if victim_n == 0 { "s" } else { "c" },"d":tag["inject"],"applied":applied,
+            "md":g(tpv,"md"),"sdbl":g(tpv,"sdbl"),"sdbr":g(tpv,"sdbr"),"sduni":g(tpv,"sduni"),
+            "msb":g(tpv,"msb"),"msu":g(tpv,"msu"),"dgram":tpv["dgram"].as_i64().unwrap_or(-1).min(1 << 30),
+            "lostv":lostv,"losta":losta,"closev":closev,"panic":panic,"stepbound":stepbound,
+            "bystander":by_done,"maxq":maxq.to_vec(),"accept_err":accept_err,"read_after":read_after}),
+    ]
+}
+
+/// C06 (honest runs): receiver-side accounting from the probe plus the credit put on the wire
+pub fn recvlimits(trace: &[Value]) -> Vec<Value> {
+    let mut out = vec![json!({"ev":"Reset","run":trace[0]["run"]})];
+    let mut rwmax: std::collections::HashMap<i64, i64> = Default::default();
+    for e in trace {
+        let ev = e["ev"].as_str().unwrap_or("");
+        if !matches!(ev, "Tx" | "Rx" | "Call") {
+            continue;
+        }
+        if ev == "Rx" && e["kind"] != "conn" {
+            continue;
+        }
+        let Some(p) = e.get("post") else { continue };
+        if p.get("streams").is_none() {
+            continue;
+        }
+        let n = e["n"].as_i64().unwrap_or(0);
+        let st = &p["streams"];
+        let mut unread = 0i64;
+        let mut per: Vec<Value> = Vec::new();
+        let mut worst_stream = 0i64;
+        for r in st["recv"].as_array().cloned().unwrap_or_default() {
+            let held = if r["stopped"] == true { 0 } else { cap(&r["end"]) - cap(&r["br"]) };
+            unread += held;
+            worst_stream = worst_stream.max(held);
+            per.push(json!([r["id"], cap(&r["br"])]));
+        }
+        let rw = cap(&st["rw"]).min(1 << 28);
+        let m = rwmax.entry(n).or_insert(0);
+        *m = (*m).max(rw);
+        let mut credits = Vec::new();
+        if ev == "Tx" {
+            for q in pkts_of(e) {
+                for f in frames_of(q) {
+                    if f["f"] == "MAX_DATA" {
+                        credits.push(json!({"k":"md","id":0,"v":cap(&f["v"]).min(1 << 29),"br":0}));
+                    } else if f["f"] == "MAX_STREAM_DATA" {
+                        let id = f["id"].as_i64().unwrap_or(-1);
+                        // bytes of that stream the application has taken so far (pre-state: reads do
+                        // not happen inside poll_transmit)
+                        let mut br = -1i64;
+                        for r in e["pre"]["streams"]["recv"].as_array().cloned().unwrap_or_default() {
+                            if r["id"].as_i64() == Some(id) {
+                                br = cap(&r["br"]);
+                            }
+                        }
+                        credits.push(json!({"k":"msd","id":id,"v":cap(&f["v"]).min(1 << 29),"br":br}));
+                    }
+                }
+            }
+        }
+        out.push(json!({"ev":"Acct","side":side_of(n),"kind":ev,"dr":cap(&st["dr"]).min(1 << 28),"rw":rw,"rwmax":*m,
+            "debt":cap(&st["debt"]).min(1 << 28),"unread":unread,"worst":worst_stream,
+            "srw":cap(&p["streams"].get("srw").cloned().unwrap_or(json!(1 << 28))).min(1 << 28),"credits":credits}));
+    }
+    out
+}
+
 pub fn project(name: &str, trace: &[Value]) -> Vec<Value> {
     match name {
         "lifecycle" => lifecycle(trace),
@@ -914,6 +1051,8 @@ pub fn project(name: &str, trace: &[Value]) -> Vec<Value> {
         "recovery" => recovery(trace),
         "streamsm" => streamsm(trace),
         "progress" => progress(trace),
+        "hostile" => hostile(trace),
+        "recvlimits" => recvlimits(trace),
         "master" => trace.to_vec(),
         o => panic!("unknown projection {o}"),
     }
